@@ -12,6 +12,7 @@ CONSTANTS
   Deterministic = FALSE
   Preamble <- NoPreamble
   Traffic = FALSE
+  Faults = FALSE
   Emit = FALSE
 CONSTRAINT Track
 INVARIANTS TypeOK P_C08_ExactlyOnce P_C08_BaseCount
